@@ -37,7 +37,8 @@ RULE = ("random discrete BNs (quick: 1-6 nodes, cards 1-5, 0-4 parents; thorough
         "parents; ~30% of the BNs and ~35% of the MNs mix one or two 10..13-state variables with 2..9-state ones) "
         "with parents in shuffled declared order and (mostly) pairwise distinct parent cardinalities; "
         "variable / state names are identifiers: neutral, random (a few with a leading underscore), or containing a "
-        "format keyword as prefix / suffix / infix, lower or upper case (variable, probability, network, table, "
+        "format keyword as prefix / suffix / infix, or (name style / state style 'exact', ~1 model in 6 each) being "
+        "exactly a keyword of BIF, XMLBIF or NET as root, child, parent or parent state, lower or upper case (variable, probability, network, table, "
         "default, node, potential, states, data, property, type, net, given, for, outcome, definition); one model in "
         "six uses pgmpy's default integer state names (compared as strings); tables: full-precision grid with exact "
         "0/1 columns, magnitudes 1e-12..1 renormalised, <=4-decimal values, deterministic; two cases in 30 have a "
@@ -98,6 +99,11 @@ STATE_POOLS = [["yes", "no"], ["true", "false"], ["low", "mid", "high"], ["a", "
                ["present", "absent"], ["s0", "s1", "s2", "s3", "s4", "s5"], ["T", "F"],
                ["none", "mild", "moderate", "severe", "critical", "fatal"],
                ["x0", "X1", "x_2", "X_3", "x4", "X5"], ["On", "Off"]]
+# names / state labels that ARE a keyword of one of the formats (every BN goes through XMLBIF, UAI and NET, about
+# half through BIF, so the union is used); drawn in lower or upper case
+EXACT_KEYWORDS = ["table", "default", "variable", "probability", "network", "property", "type", "discrete",   # BIF
+                  "bif", "name", "outcome", "definition", "for", "given",                                    # XMLBIF tags
+                  "node", "potential", "data", "states", "net"]                                              # NET
 IDENT0 = "abcdefghijklmnopqrstuvwxyzABCDEFGHIJKLMNOPQRSTUVWXYZ"
 IDENT = IDENT0 + "0123456789_"
 
@@ -121,6 +127,11 @@ def keyword_name(rng):
     return rng.choice(["a_", "pre", "X"]) + kw + rng.choice(["_z", "1", "ed", "Q"])
 
 
+def exact_keyword(rng):
+    kw = rng.choice(EXACT_KEYWORDS)
+    return kw.upper() if rng.random() < 0.25 else kw
+
+
 def unique_names(rng, n, style):
     out = []
     tries = 0
@@ -128,6 +139,9 @@ def unique_names(rng, n, style):
         tries += 1
         if style == "neutral":
             c = f"v{len(out)}"
+        elif style == "exact":     # about half of the variables are named exactly like a format keyword
+            c = exact_keyword(rng) if rng.random() < 0.5 or not out else \
+                (rng.choice(PLAIN_POOL) if rng.random() < 0.7 else keyword_name(rng))
         elif style == "plain":
             c = rng.choice(PLAIN_POOL) if rng.random() < 0.6 else rand_ident(rng, rng.random() < 0.04)
         else:   # "kw": about half of the names carry a keyword
@@ -145,10 +159,10 @@ def state_list(rng, var, k, style):
         return list(range(k))
     if style == "neutral":
         return [f"s{i}" for i in range(k)]
-    if style == "kw":
+    if style in ("kw", "exact"):
         out = []
         while len(out) < k:
-            c = keyword_name(rng) if rng.random() < 0.6 else f"st{len(out)}"
+            c = (exact_keyword(rng) if style == "exact" else keyword_name(rng)) if rng.random() < 0.6 else f"st{len(out)}"
             if c not in out:
                 out.append(c)
         return out
@@ -228,8 +242,8 @@ def bn_spec(rng, tier, big=False):
     thorough = tier == "thorough"
     max_n, max_card, max_par = (8, 6, 5) if thorough else (6, 5, 4)
     max_joint = 20000 if thorough else 4096
-    name_style = rng.choice(["neutral", "plain", "plain", "plain", "kw"])
-    state_style = rng.choice(["neutral", "plain", "plain", "plain", "kw", "int"])
+    name_style = rng.choice(["neutral", "plain", "plain", "plain", "kw", "exact"])
+    state_style = rng.choice(["neutral", "plain", "plain", "plain", "kw", "int", "exact"])
     val_style = rng.choice(["grid", "grid", "magn", "dec", "dec", "mixed", "det"])
     if big:
         # one family whose table has > 1000 entries (numpy's print threshold)
@@ -432,24 +446,44 @@ def bn_names(bn):
     return out
 
 
+BIF_BLOCK_KW = ("variable", "probability")
+
+
 def bif_keyword_feature(bn):
-    return any(BIF_KW.search(x) for x in bn_names(bn))
+    """some name merely CONTAINS a BIF block keyword (or table/default + number-like tail)"""
+    return any(BIF_KW.search(x) and x not in BIF_BLOCK_KW for x in bn_names(bn))
+
+
+def bif_exact_keyword_names(bn):
+    """variable or state names that ARE a block keyword of the BIF reader's splitter"""
+    return {x for x in bn_names(bn) if x in BIF_BLOCK_KW}
 
 
 def net_keyword_feature(bn):
     # the reader recognises a node declaration by the literal "node " anywhere in the file: a parent whose
     # name ends in "node" and is followed by another parent looks like one
-    return any(p.endswith("node") for c in bn["cpds"].values() for p in c["parents"][:-1])
+    return any(p.endswith("node") and p != "node" for c in bn["cpds"].values() for p in c["parents"][:-1])
 
 
-def bn_renamed(bn):
-    """Same network with neutral variable / state names (v0.., s0..)."""
-    vm = {v: f"v{i}" for i, v in enumerate(bn["nodes"])}
+def net_exact_keyword_names(bn):
+    """a parent named exactly `node` that is followed by another parent: `potential (c | node x)`"""
+    return {p for c in bn["cpds"].values() for p in c["parents"][:-1] if p == "node"}
+
+
+def bn_renamed(bn, only=None):
+    """Same network with neutral variable / state names (v0.., s0..).  With `only` (a set of names) just the
+    variables / states carrying exactly one of those names are renamed."""
+    if only is None:
+        vm = {v: f"v{i}" for i, v in enumerate(bn["nodes"])}
+        sm = {v: [f"s{i}" for i in range(bn["card"][v])] for v in bn["nodes"]}
+    else:
+        vm = {v: (f"kwv{i}" if v in only else v) for i, v in enumerate(bn["nodes"])}
+        sm = {v: [f"kws{i}" if x in only else x for i, x in enumerate(bn["states"][v])] for v in bn["nodes"]}
     out = dict(bn)
     out["nodes"] = [vm[v] for v in bn["nodes"]]
     out["edges"] = [[vm[a], vm[b]] for a, b in bn["edges"]]
     out["card"] = {vm[v]: k for v, k in bn["card"].items()}
-    out["states"] = {vm[v]: [f"s{i}" for i in range(bn["card"][v])] for v in bn["nodes"]}
+    out["states"] = {vm[v]: sm[v] for v in bn["nodes"]}
     out["cpds"] = {vm[v]: {"parents": [vm[p] for p in c["parents"]], "table": c["table"]}
                    for v, c in bn["cpds"].items()}
     return out
@@ -1008,6 +1042,14 @@ def run_case(spec, ctx):
               "card>=10 mixed with 2..9" if (any(c >= 10 for c in bn["card"].values()) and
                                              any(2 <= c <= 9 for c in bn["card"].values())) else None,
               "exponent-entries" if bn_has_exponent(bn) else None,
+              "exact-keyword-variable" if any(v.lower() in EXACT_KEYWORDS for v in bn["nodes"]) else None,
+              "exact-keyword-parent" if any(p.lower() in EXACT_KEYWORDS for c in bn["cpds"].values() for p in c["parents"]) else None,
+              "exact-keyword-child" if any(v.lower() in EXACT_KEYWORDS and c["parents"] for v, c in bn["cpds"].items()) else None,
+              "exact-keyword-state" if any(isinstance(x, str) and x.lower() in EXACT_KEYWORDS
+                                           for v in bn["nodes"] for x in bn["states"][v]) else None,
+              "exact-keyword-parent-state" if any(isinstance(x, str) and x.lower() in EXACT_KEYWORDS
+                                                  for c in bn["cpds"].values() for p in c["parents"]
+                                                  for x in bn["states"][p]) else None,
               "underscore-lead-name" if any(v.startswith("_") for v in bn_names(bn)) else None,
               "keyword-in-name" if any(k in x.lower() for x in bn_names(bn) for k in KEYWORDS if len(k) > 3) else None,
               "n_jobs=2" if spec.get("n_jobs", 1) != 1 else None):
@@ -1021,6 +1063,10 @@ def run_case(spec, ctx):
         raw = list(P)
         if P:
             cands = []
+            if fmt == "bif" and bif_exact_keyword_names(bn):
+                cands.append(("c09:bif:keyword-name", "exact-names"))
+            if fmt == "net" and net_exact_keyword_names(bn):
+                cands.append(("c09:net:keyword-name", "exact-names"))
             if fmt == "bif" and bif_keyword_feature(bn):
                 cands.append(("c09:bif:keyword-substring", "names"))
             if fmt == "net" and net_keyword_feature(bn):
@@ -1036,6 +1082,8 @@ def run_case(spec, ctx):
                 b2 = bn
                 if "names" in ids:
                     b2 = bn_renamed(b2)
+                elif "exact-names" in ids:
+                    b2 = bn_renamed(b2, only=bif_exact_keyword_names(bn) if fmt == "bif" else net_exact_keyword_names(bn))
                 if "exponent" in ids:
                     b2 = bn_without_exponent(b2)
                 if "single" in ids:
